@@ -22,7 +22,8 @@ THEOREMS = ["Claripy.Props.C12.C12_mro_child", "Claripy.Props.C12.C12_mro_compos
             "Claripy.Props.C12.C12_batch_eval_correct", "Claripy.Props.C12.C12_solution_correct",
             "Claripy.Props.C12.C12_child_footprint_batch_solution", "Claripy.Props.C12.C12_value_query_after_history_partial",
             "Claripy.Props.C12.C12_reabsorb_breaks_CInv_as_stated", "Claripy.Solver.compQuery_judge",
-            "Claripy.Solver.child_batchEval_foot", "Claripy.Solver.child_solution_foot"]
+            "Claripy.Solver.child_batchEval_foot", "Claripy.Solver.child_solution_foot",
+            "Claripy.Props.C12.C12_update_accepts_valid"]
 A = lambda c, s=0: {"s": s, "op": "add", "cs": [c]}  # noqa: E731
 E = lambda e, n, s=0: {"s": s, "op": "eval", "e": e, "n": n, "extra": []}  # noqa: E731
 RULES = {
